@@ -14,7 +14,7 @@
 From Coq Require Import Reals PrimFloat.
 From Coquelicot Require Import Coquelicot.
 From Coq Require Import List.
-From Yaqs Require Import Base.Num Model.Verdict Proofs.NoiseAttribP Proofs.VerdictP Gen.SmallGen Proofs.SmallGenP.
+From Yaqs Require Import Base.Num Model.Verdict Proofs.NoiseAttribP Proofs.VerdictP Gen.VerdictGen Proofs.VerdictGenP.
 From Yaqs Require Import Model.DigitalLoop Proofs.DigitalLoopP Model.Checker Proofs.CheckerP.
 From Yaqs Require LinAlg.TT.
 
@@ -31,7 +31,7 @@ Theorem C04_verdict_symmetric : forall (z : C) n f e, verdict RN (Cmod (Cconj z)
 Proof. exact verdict_symmetric. Qed.
 Print Assumptions C04_verdict_symmetric.
 
-(* tie to the source by translation: Gen/SmallGen.verdict_src is regenerated from MPO.check_if_identity on every run; it is the
+(* tie to the source by translation: Gen/VerdictGen.verdict_src is regenerated from MPO.check_if_identity on every run; it is the
    binary64 instance of the model with the allowance written in the source (the double 1e-9, which is non-negative as
    verdict_complete requires) *)
 Theorem C04_source_verdict_is_model : forall abs_trace n fidelity,
